@@ -150,6 +150,8 @@ pub fn lanes_for(prop: &str, tier: &str, seed: u64) -> Vec<Scenario> {
             v.extend(gen_cli::lane_stream_layers(seed));
             v.extend(gen::lane_script_exit(seed));
             v.extend(gen_cli::lane_cli_fates(seed, if thorough { 1 } else { 4 }));
+            v.extend(gen_cli::lane_pairing(seed));
+            v.extend(gen_cli::lane_cli_report_bytes(seed));
             v.extend(gen_cli::lane_random(Tier::Lib, seed, n_rand_lib, "C05"));
             v.extend(gen_cli::lane_random(Tier::Cli, seed, n_rand_cli, "C05"));
         }
@@ -166,6 +168,9 @@ pub fn lanes_for(prop: &str, tier: &str, seed: u64) -> Vec<Scenario> {
             v.extend(gen::lane_fates(Tier::Lib, seed));
             v.extend(gen_cli::lane_random(Tier::Lib, seed, n_rand_lib, "C13"));
             v.extend(gen_cli::lane_cli_bytes(seed, if thorough { 400 } else { 40 }));
+            v.extend(gen_cli::lane_cli_report_bytes(seed));
+            v.extend(gen_cli::lane_pairing(seed));
+            v.extend(gen_cli::lane_random(Tier::Cli, seed, n_rand_cli, "C13"));
         }
         "C14" => {
             v.extend(gen::lane_timing(Tier::Lib, seed));
@@ -195,6 +200,7 @@ pub fn lanes_for(prop: &str, tier: &str, seed: u64) -> Vec<Scenario> {
             v.extend(gen_cli::lane_hard_failures(seed));
             v.extend(gen_cli::lane_directory(seed));
             v.extend(gen_cli::lane_cram_sizes(seed));
+            v.extend(gen_cli::lane_pairing(seed));
             v.extend(gen_cli::lane_fs_faults(seed));
             v.extend(gen_cli::lane_summary(seed, if thorough { 1 } else { 2 }));
             v.extend(gen_cli::lane_cli_fates(seed, if thorough { 1 } else { 4 }));
@@ -216,7 +222,6 @@ fn extra_chunk(prop: &str, seed: u64, k: usize) -> Vec<Scenario> {
     let mut v = vec![];
     let (use_lib, use_cli) = match prop {
         "C18" | "C20" => (false, true),
-        "C13" => (true, false),
         _ => (true, true),
     };
     if use_lib {
